@@ -104,6 +104,16 @@ pub fn attr_bytes(spec: &str) -> Vec<u8> {
                 for c in nums() { v.extend_from_slice(&c.to_be_bytes()); }
                 out.extend(pa(0xc0, 8, &v));
             }
+            // extended communities: e<hi>_<lo>-<hi>_<lo>...
+            "e" => {
+                let mut v = vec![];
+                for c in rest.split('-') {
+                    let (hi, lo) = c.split_once('_').expect("hi_lo");
+                    v.extend_from_slice(&hi.parse::<u32>().unwrap().to_be_bytes());
+                    v.extend_from_slice(&lo.parse::<u32>().unwrap().to_be_bytes());
+                }
+                out.extend(pa(0xc0, 16, &v));
+            }
             // raw attribute: x<flags>-<type>-<byte>-<byte>...
             "x" => { let b = nums(); out.extend(pa(b[0] as u8, b[1] as u8, &b[2..].iter().map(|x| *x as u8).collect::<Vec<u8>>())) }
             _ => panic!("bad attribute {a}"),
@@ -227,8 +237,28 @@ fn attrs_tok(v: &Value) -> Option<String> {
             "localPref" => out.push(format!("l{}", num(val)?)),
             "atomicAggregate" => out.push("t".into()),
             "communities" => {
-                let cs: Option<Vec<String>> = val.as_array()?.iter().map(|c| c.get("rawFields").and_then(comm_raw)).collect();
-                out.push(format!("c{}", cs?.join("-")));
+                let (mut std, mut ext) = (vec![], vec![]);
+                for c in val.as_array()? {
+                    let hex = comm_hex(c.get("rawFields")?)?;
+                    match (c.get("type")?.as_str()?, hex.len()) {
+                        ("standard", 8) => std.push(u32::from_str_radix(&hex, 16).ok()?.to_string()),
+                        ("extended", 16) => ext.push(format!("{}_{}", u32::from_str_radix(&hex[..8], 16).ok()?, u32::from_str_radix(&hex[8..], 16).ok()?)),
+                        _ => return None,
+                    }
+                }
+                if !std.is_empty() { out.push(format!("c{}", std.join("-"))); }
+                if !ext.is_empty() { out.push(format!("e{}", ext.join("-"))); }
+            }
+            "invalid" => {
+                let a = val.as_array()?;
+                let mut f = vec![num(a.first()?)?, num(a.get(1)?)?];
+                for b in a.get(2)?.as_array()? { f.push(num(b)?); }
+                out.push(format!("x{}", f.join("-")));
+            }
+            "unimplemented" => {
+                let mut f = vec![num(val.get("flags")?)?, num(val.get("type_code")?)?];
+                for b in val.get("value")?.as_array()? { f.push(num(b)?); }
+                out.push(format!("x{}", f.join("-")));
             }
             _ => return None,
         }
@@ -236,15 +266,10 @@ fn attrs_tok(v: &Value) -> Option<String> {
     Some(if out.is_empty() { "0".into() } else { out.join("+") })
 }
 
-/// rawFields of a standard community: ["0xAAAA", "0xBBBB"] -> u32
-fn comm_raw(v: &Value) -> Option<String> {
-    let parts: Option<Vec<u32>> = v.as_array()?.iter().map(|p| p.as_str().and_then(|s| u32::from_str_radix(s.trim_start_matches("0x"), 16).ok())).collect();
-    let parts = parts?;
-    match parts.as_slice() {
-        [a, b] => Some(((a << 16) | b).to_string()),
-        [a] => Some(a.to_string()),
-        _ => None,
-    }
+/// rawFields (["0xFDE8", "0x0001"], ...) -> the hex digits concatenated
+fn comm_hex(v: &Value) -> Option<String> {
+    let parts: Option<Vec<&str>> = v.as_array()?.iter().map(|p| p.as_str().and_then(|s| s.strip_prefix("0x"))).collect();
+    Some(parts?.concat())
 }
 
 fn prefix_tok(s: &str) -> Option<String> {
@@ -294,6 +319,9 @@ fn csv_tok(line: &str) -> Option<String> {
     let rec = recs.next()?.ok()?;
     if recs.next().is_some() { return None; }
     let f: Vec<&str> = rec.iter().collect();
+    if !f.is_empty() && f[0].contains('/') {
+        if let Some(p) = prefix_tok(f[0]) { return csv_attrs(&f[1..]).map(|a| format!("R{},{}", p, a)); }
+    }
     let on = |s: &str| if s.is_empty() { Some("-".to_string()) } else { s.parse::<u64>().ok().map(|n| n.to_string()) };
     match f.len() {
         1 if f[0].is_empty() && line.trim_end() == "\"\"" => Some("R-".into()),
@@ -310,6 +338,41 @@ fn csv_tok(line: &str) -> Option<String> {
         }
         _ => None,
     }
+}
+
+/// the flattened attributes of a route in a csv line -> attr spec. The csv has no
+/// field names: a bare number is a MED below 1000 and a LOCAL_PREF from 1000
+/// (the generator keeps to that), communities come last.
+fn csv_attrs(f: &[&str]) -> Option<String> {
+    let mut out: Vec<String> = vec![];
+    let mut i = 0;
+    let mut comms: Vec<String> = vec![];
+    while i < f.len() {
+        let x = f[i];
+        if let Some(o) = match x { "Igp" => Some(0), "Egp" => Some(1), "Incomplete" => Some(2), _ => None } {
+            out.push(format!("o{o}")); i += 1;
+        } else if x.starts_with("AS") && comms.is_empty() {
+            let mut hops = vec![];
+            while i < f.len() && f[i].starts_with("AS") { hops.push(f[i][2..].parse::<u32>().ok()?.to_string()); i += 1; }
+            out.push(format!("p{}", hops.join("-")));
+        } else if let Ok(ip) = x.parse::<Ipv4Addr>() {
+            let o = ip.octets();
+            if o[0] != 10 || o[1] != 1 || o[2] != 0 { return None; }
+            out.push(format!("n{}", o[3])); i += 1;
+        } else if let Ok(n) = x.parse::<u32>() {
+            out.push(if n < 1000 { format!("m{n}") } else { format!("l{n}") }); i += 1;
+        } else if x == "AtomicAggregate" {
+            out.push("t".into()); i += 1;
+        } else if x.starts_with("0x") {
+            let mut hex = String::new();
+            while i < f.len() && f[i].starts_with("0x") { hex.push_str(&f[i][2..]); i += 1; }
+            if hex.len() != 8 || f.get(i) != Some(&"standard") { return None; }
+            comms.push(u32::from_str_radix(&hex, 16).ok()?.to_string());
+            while i < f.len() && !f[i].starts_with("0x") { i += 1; }
+        } else { return None; }
+    }
+    if !comms.is_empty() { out.push(format!("c{}", comms.join("-"))); }
+    Some(if out.is_empty() { "0".into() } else { out.join("+") })
 }
 
 pub fn line_tok(fmt: &str, line: &str) -> String {
